@@ -125,19 +125,37 @@ def chainSeed (t : Table) : Nat → Int → Int
     | [c] => chainSeed t fuel c
     | _ => i
 
-/-- Value before the fork rule (navis uses `pt = true`: leaf totals per tree): only branch points are computed; a segment inherits the value of its
-distal seed (a leaf seeds 0). -/
-def fcPre (t : Table) (pt : Bool) (n : Int) : Nat :=
-  let s := chainSeed t (t.length + 1) n
-  if isFork t s then leafFormula t pt s else 0
+def isRootId (t : Table) (i : Int) : Bool :=
+  match find? t i with
+  | some n => decide (n.parent < 0)
+  | none => false
 
-/-- `flow_centrality` as written (forking roots: see `fcRootChoices`). -/
+/-- Value before the fork rule (navis uses `pt = true`: leaf totals per tree).  Since the `fix:` commits for the two
+flow_centrality findings the formula is evaluated at branch points, leafs and roots; every other node (exactly one
+child, not a root) inherits the value of the distal seed of its small segment, a leaf or a branch point. -/
+def fcPre (t : Table) (pt : Bool) (n : Int) : Nat :=
+  if isRootId t n then leafFormula t pt n else leafFormula t pt (chainSeed t (t.length + 1) n)
+
+/-- `flow_centrality` as written: branch points take their largest child's (pre-rule) value. -/
 def flowCentrality (t : Table) (pt : Bool) (n : Int) : Nat :=
   if isFork t n then maxList ((children t n).map (fcPre t pt)) else fcPre t pt n
 
-/-- A forking root is not a `branch`: it inherits the value of whichever of its segments is visited
-first, so any child's value is admissible. -/
-def fcRootChoices (t : Table) (pt : Bool) (n : Int) : List Nat := (children t n).map (fcPre t pt)
+/-! #### historical: `flow_centrality` before the two `fix:` commits
+
+Only branch points were computed; a segment inherited the value of its distal seed, a leaf seeding 0 (terminal
+twigs: 0 instead of the tip count), and a forking root inherited the value of whichever of its segments was visited
+first.  Kept to document what the fixes changed; the code no longer behaves like this. -/
+
+def fcPreHist (t : Table) (pt : Bool) (n : Int) : Nat :=
+  let s := chainSeed t (t.length + 1) n
+  if isFork t s then leafFormula t pt s else 0
+
+def flowCentralityHist (t : Table) (pt : Bool) (n : Int) : Nat :=
+  if isFork t n then maxList ((children t n).map (fcPreHist t pt)) else fcPreHist t pt n
+
+/-- A forking root was not a `branch`: it inherited the value of whichever of its segments was visited first, so
+any child's value was admissible. -/
+def fcRootChoicesHist (t : Table) (pt : Bool) (n : Int) : List Nat := (children t n).map (fcPreHist t pt)
 
 /-! ### bending flow as written -/
 
@@ -187,8 +205,8 @@ tip-path count at every node, forks taking their largest child's count.  It is `
 def fcSpec (t : Table) (n : Int) : Nat :=
   if isFork t n then maxList ((children t n).map (tipPaths t)) else tipPaths t n
 
-/-- `n` lies on a terminal twig as `flow_centrality` sees it: the unbranched chain below `n` does not end in
-a branch point (`type == "branch"`), so the code seeds the segment with 0. -/
+/-- (historical) `n` lay on a terminal twig as `flow_centrality` saw it before the fix: the unbranched chain below `n`
+does not end in a branch point (`type == "branch"`), so the code seeded the segment with 0. -/
 def seedIsFork (t : Table) (n : Int) : Bool := isFork t (chainSeed t (t.length + 1) n)
 
 /-! ### segregation index -/
